@@ -21,7 +21,7 @@ T = P.T
 
 
 def has_wait(seq):
-    return any(a[0] == 'wait' for a in seq)
+    return any(a[0] in ('wait', 'put_wait') for a in seq)
 
 
 def run_case(item):
